@@ -671,6 +671,15 @@ impl<Front: SocketHandler> ConnectionH1<Front> {
                         stream.front.clear();
                         // do not stream.front.storage.clear() because of H1 pipelining
                         stream.attempts = 0;
+                        // The slot is reused for the next keep-alive request: forget the
+                        // end-of-stream marks of the finished exchange, as `create_stream`
+                        // does for a recycled slot. A stale `back_received_end_of_stream`
+                        // makes an H2 backend connection reject the next response HEADERS
+                        // ("CANNOT RECEIVE Headers ON THIS STREAM") and answer 502.
+                        stream.front_received_end_of_stream = false;
+                        stream.back_received_end_of_stream = false;
+                        stream.front_data_received = 0;
+                        stream.back_data_received = 0;
                         // Transition back to Idle so buffered pipelined requests
                         // trigger a phase transition on the next readable() call.
                         stream.state = StreamState::Idle;
